@@ -49,6 +49,17 @@ def params(draw, tier):
         p["limit"] = draw(st.sampled_from(["inf", "inf", "default", 0.8]))
         p["pose"]["rot_mode"] = "zero"
         p["n_int"] = {"mode": "const", "k": draw(st.integers(0, 3))}
+    # rare junction types inside an ordinary tissue: one or two internal interfaces contracted into generic four-way
+    # junctions; junctions whose interfaces all leave inside one half-plane (reflex cell corner)
+    p["fourway"] = draw(st.sampled_from([0, 0, 1, 2])) if p["kind"] in ("voronoi", "moebius") else 0
+    p["halfplane"] = draw(st.sampled_from([False, 0.6, 1.2, 1.2, 2.0])) if p["kind"] in ("voronoi", "moebius") else False
+    if p["halfplane"] and p["halfplane"] > 1.0:
+        p["limit"] = draw(st.floats(0.5, 0.67))          # narrow fans only matter for limits up to 2 pi / 3
+    elif p["fourway"]:
+        # some, not all, neighbours of the four-way junction flagged: a part of the junctions gets a wide (166 degree)
+        # opening, the limit lies between that and the 120 degrees of ordinary triple junctions
+        p["halfplane"] = 0.6
+        p["limit"] = draw(st.floats(0.7, 0.9))
     p["nseed"] = draw(st.integers(0, 2 ** 32 - 1))
     p["rhs"] = draw(st.sampled_from(["static", "static", "velocity"]))
     p["method"] = draw(st.sampled_from([None, None, "lsq"]))
@@ -64,6 +75,26 @@ def check_case(p, ctx):
     t0 = gen.apply_sub(t0, p, connected=True, no_pinch=True)
     nint = gen.n_int_func(t0, p)
     rng = PRNG(p["nseed"])
+    for _ in range(p.get("fourway", 0)):
+        cand = [ri for ri, r in enumerate(t0.ridges) if r.left is not None and r.right is not None]
+        if not cand:
+            break
+        ri = cand[int(rng.integers(0, len(cand)))]
+        jr = t0.junction_ridges()
+        if len(jr[t0.ridges[ri].a]) != 3 or len(jr[t0.ridges[ri].b]) != 3:
+            continue
+        t_c = series.collapse_ridge(t0, ri)
+        if t_c is not None:
+            nint = {k2: nint[k] for k, k2 in zip([k for k in range(len(t0.ridges)) if k != ri], range(len(t_c.ridges)))}
+            t0 = t_c
+            ctx.count("interface-contracted-into-a-four-way-junction")
+    if p.get("halfplane"):
+        t_h, n_h = series.push_junctions_into_half_planes(t0, nint, p["nseed"] ^ 0x1234,
+                                                          frac=0.35 if p.get("fourway") else 0.2,
+                                                          push=float(p["halfplane"]))
+        if t_h is not None and n_h:
+            t0 = t_h
+            ctx.count("junctions-with-all-interfaces-in-a-half-plane")
     if p["noise"] > 0:
         sp = series.min_spacing(t0, sorted(t0.J))
         t0 = series.moved(t0, {j: z + complex(*rng.normal(size=2)) * p["noise"] * sp * 0.3 for j, z in t0.J.items()})
@@ -134,6 +165,12 @@ def check_case(p, ctx):
         ctx.skip("an opening angle is within the coefficient uncertainty of the limit")
         return
     exp_excl = [k for k, path in enumerate(internal_paths) if flagged[path[0]] and flagged[path[-1]]]
+    for vid in ends:
+        own = [k for k, path in enumerate(internal_paths) if vid in (path[0], path[-1])]
+        kept = [k for k in own if k not in exp_excl]
+        if len(own) >= 4 and 3 <= len(kept) < len(own):
+            ctx.count("class:junction-of-4+-loses-some-interfaces-keeps>=3")
+            break
     if p["limit"] in ("default", "inf") and exp_excl:
         # only possible with an exactly straight-through junction
         ctx.skip("exactly straight-through junction under the default limit")
@@ -166,6 +203,16 @@ def check_case(p, ctx):
     if p["rhs"] == "velocity":
         kw["b_matrix"] = "velocity"
     if fm.matrix.shape[0] == 0:
+        # no junction keeps three interfaces after the exclusion? then an unlimited matrix restricted to the remaining
+        # columns has no such junction either
+        R_f0 = realise(t, nint, lab)
+        fresh0 = call(ffm.ForceMatrix, make_frame(R_f0, 0, time=0.0), "none", "none", {}, {}, np.inf, p["fit"])
+        A0 = np.asarray(fresh0.matrix, float)
+        keep0 = [k for k in range(E) if k not in exp_excl]
+        left = [vid for vid, r0 in fresh0.map_vid_to_row.items()
+                if A0.shape[1] == E and sum(1 for k in keep0 if A0[r0, k] != 0 or A0[r0 + 1, k] != 0) >= 3]
+        if left:
+            return ctx.violation("restricted-rows", p, observed=[], expected=sorted(left)[:10])
         ctx.count("trivial:no junction rows left")
         return
     call(fsys.solve_stress, when=0, **kw)
@@ -257,7 +304,7 @@ def check_case(p, ctx):
 
 
 def run(ctx):
-    drive(ctx, params(ctx.tier), check_case, ctx.budget(quick=300, thorough=800), label="tissue")
+    drive(ctx, params(ctx.tier), check_case, ctx.budget(quick=700, thorough=1000), label="tissue")
 
 
 CASES = {"tissue": check_case}
